@@ -1,14 +1,15 @@
 #!/bin/sh
+R=${SA_REPO:-/repo}; export SA_REPO=$R   # the tree the patches are applied to (a scratch worktree while helper agents read /repo)
 # replay the argued Cython breaking edits (seeded_pyx/) against the quick check of their property
 cd /verif
-for d in seeded_pyx/*/; do
+for d in seeded_pyx/${1:-}*/; do
   id=$(basename $d); prop=${id%%-*}
   [ -f $d/patch.diff ] || continue
-  if ! git -C /repo apply --check /verif/$d/patch.diff 2>/dev/null; then echo "$id patch does not apply"; continue; fi
-  git -C /repo apply /verif/$d/patch.diff
+  if ! git -C $R apply --check /verif/$d/patch.diff 2>/dev/null; then echo "$id patch does not apply"; continue; fi
+  git -C $R apply /verif/$d/patch.diff
   out=$(/venv/bin/python -m sa check $prop --tier quick 2>&1); rc=$?
-  git -C /repo checkout -- .
+  git -C $R checkout -- .
   rules=$(echo "$out" | grep -v KNOWN-FINDING | grep -o '\[R[^]]*\]' | sort -u | tr '\n' ' ')
   echo "$id rc=$rc $rules"
 done
-git -C /repo status --short | head -3
+git -C $R status --short | head -3
